@@ -159,3 +159,81 @@ fn operand(rng: &mut Rng, depth: usize) -> (String, bool) {
         _ => (format!("{}::{}", plain_ident(rng), plain_ident(rng)), false),
     }
 }
+
+/// path usable in type position (generic args without turbofish)
+pub fn type_path(rng: &mut Rng, depth: usize) -> String {
+    let mut s = String::new();
+    if rng.chance(1, 6) {
+        s.push_str("::");
+    }
+    let n = rng.weighted(&[5, 3, 1]) + 1;
+    for i in 0..n {
+        if i > 0 {
+            s.push_str("::");
+        }
+        s.push_str(&plain_ident(rng));
+    }
+    if depth > 0 && rng.chance(1, 3) {
+        s.push_str(&format!("<{}>", ty(rng, depth - 1)));
+    }
+    s
+}
+
+/// expression-position path (turbofish for generic args)
+pub fn expr_path(rng: &mut Rng) -> String {
+    let mut s = String::new();
+    if rng.chance(1, 6) {
+        s.push_str("::");
+    }
+    let n = rng.weighted(&[5, 3, 1]) + 1;
+    for i in 0..n {
+        if i > 0 {
+            s.push_str("::");
+        }
+        s.push_str(&if i == 0 { ident(rng) } else { plain_ident(rng) });
+    }
+    if rng.chance(1, 5) {
+        s.push_str(&format!("::<{}>", plain_ident(rng)));
+    }
+    s
+}
+
+pub fn ty(rng: &mut Rng, depth: usize) -> String {
+    let d = depth.saturating_sub(1);
+    if depth == 0 {
+        return (*rng.pick(&["u8", "String", "T", "bool", "Self", "_", "!"])).to_string();
+    }
+    match rng.below(15) {
+        0 => format!("[{}; 4]", ty(rng, d)),
+        1 => format!("fn({}) -> {}", ty(rng, d), ty(rng, d)),
+        2 => format!("impl {} + Send", type_path(rng, d)),
+        3 => "_".into(),
+        4 => format!("{}!({})", plain_ident(rng), plain_ident(rng)),
+        5 => "!".into(),
+        6 => format!("({})", ty(rng, d)),
+        7 | 8 => type_path(rng, d),
+        9 => format!("*{} {}", rng.pick(&["const", "mut"]), ty(rng, d)),
+        10 => format!("&{}{}{}", if rng.coin() { "'a " } else { "" }, if rng.coin() { "mut " } else { "" }, ty(rng, d)),
+        11 => format!("[{}]", ty(rng, d)),
+        12 => format!("dyn {} + 'a", type_path(rng, d)),
+        13 => format!("({}, {})", ty(rng, d), ty(rng, d)),
+        _ => format!("<{} as {}>::{}", ty(rng, d), type_path(rng, 0), plain_ident(rng)),
+    }
+}
+
+pub fn visibility(rng: &mut Rng) -> String {
+    (*rng.pick(&["pub", "pub(crate)", "pub(super)", "pub(self)", "pub(in a::b)", "pub(in crate::x)", ""])).to_string()
+}
+
+pub fn where_predicates(rng: &mut Rng) -> String {
+    let n = rng.range(1, 3);
+    (0..n)
+        .map(|_| match rng.below(4) {
+            0 => format!("{}: {}", rng.pick(&["T", "U", "Self"]), type_path(rng, 1)),
+            1 => "'a: 'b".to_string(),
+            2 => format!("{}: {} + 'a", ty(rng, 1), type_path(rng, 0)),
+            _ => format!("for<'x> {}: Fn(&'x u8)", rng.pick(&["T", "U"])),
+        })
+        .collect::<Vec<_>>()
+        .join(", ")
+}
